@@ -25,7 +25,11 @@
 (*     op = "Setup": the empty cache is pre-loaded with the entries rr     *)
 (*               (sequence of <<k, v>>, most recently used first).         *)
 (*     op = "Snap": nothing happens, obs is a snapshot (free-running runs) *)
-(*   obs = [cap, sizes, free, len, size, range, filo, isz, idx]            *)
+(*   obs = [cap, sizes, scale, free, len, size, range, filo, isz, idx]     *)
+(*     cap, sizes in UNITS; scale = the factor (a decimal string, never    *)
+(*             compared) by which the driver multiplied them for the real  *)
+(*             cache; Size() is reported in units, NOTMULT if it is not a  *)
+(*             multiple of the factor (then it equals no sum of sizes)     *)
 (*     free  = 1 Len()/Size() answer, 0 they would block (mutex held),     *)
 (*             2 not observed at this step (free-running traces)           *)
 (*     len, size = Len(), Size() (NA when free # 1)                        *)
@@ -41,6 +45,7 @@ ERR     == -3
 BLOCKED == -7
 PANIC   == -9
 NA      == -999
+NOTMULT == -888
 
 ----------------------------------------------------------------------------
 \* The atomic sequential LRU.
